@@ -1,7 +1,7 @@
 (* Property C10 -- matrix operations on observable matrices satisfy their defining identities.  Theorems only. *)
 From Coq Require Import ZArith QArith Reals List Bool.
 From Interval Require Import Interval.Interval Real.Xreal Real.Xreal_derive.
-From PV Require Import Base.QAux Base.RI Base.Expr Lin.Mat Fit.Implicit.
+From PV Require Import Base.QAux Base.RI Base.Expr Base.ExprFold Base.Dyadic Base.DyadicR Lin.Mat Fit.Implicit Fit.ImplicitSound.
 Import ListNotations.
 
 (* the defining identities are polynomial systems; their symbolic derivatives (the differentiated identities decided on every
@@ -26,6 +26,30 @@ Theorem matrix_product_associates :
   (dotv (map (fun k => dotv a (mcol M k)) (seq 0 n)) p == dotv a (mvec M p))%Q.
 Proof. intros M a n p H. exact (gram_row M a n p H). Qed.
 
+(* the folded derivative used by the verdicts (0 * e folded to 0) is the same real derivative wherever the interval certificate
+   guardsI holds, its interval evaluation encloses it, and the certificate is inherited (second derivatives: apply twice) *)
+Theorem certified_folded_derivative :
+  forall (l : list Q) e v, guardsI (qenvI l) e = true ->
+  Xderive_pt (fun t => evalX (updX (qenvR l) v t) e) (Xreal (qenvR l v)) (evalX (renv (qenvR l)) (Dfold e v))
+  /\ contains (I.convert (evalI (qenvI l) (Dfold e v))) (evalX (renv (qenvR l)) (Dfold e v))
+  /\ guardsR (qenvR l) (Dfold e v).
+Proof. exact certified_derivative. Qed.
+
+(* interval bounds read as dyadic numbers enclose the real value *)
+Theorem interval_bounds_as_dyadics :
+  forall i a b r, i2d i = Some (a, b) -> contains (I.convert i) (Xreal r) -> (dR a <= r <= dR b)%R.
+Proof. exact i2d_correct. Qed.
+
+(* the decision taken on every differentiated equation: real coefficients inside their enclosures, real arguments inside theirs,
+   a positive decision  ==>  |sum_j c_j x_j| <= rt (sum_j |c_j x_j| + scale)  *)
+Theorem differentiated_equation_decision_is_sound :
+  forall cs xs crs xrs rt scale res,
+  Forall2 encl cs crs -> Forall2 enclx xs xrs -> (0 <= dR rt)%R ->
+  dform cs xs dzero dzero dzero = Some res ->
+  dleb (fst res) (dmul rt (dadd (snd res) scale)) = true ->
+  (Rabs (rsum crs xrs) <= dR rt * (rasum crs xrs + dR scale))%R.
+Proof. exact form_decision_sound. Qed.
+
 (* Non-vacuity: A * inv(A) = 1 for A = [[2, 1], [1, 1]], inv = [[1, -1], [-1, 2]]: the four identities hold at the central values *)
 Example c10_example :
   let eqs := [ESub (EAdd (EMul (EV 4) (EV 0)) (EMul (EV 5) (EV 2))) (EC 1%Q); EAdd (EMul (EV 4) (EV 1)) (EMul (EV 5) (EV 3));
@@ -38,3 +62,6 @@ Print Assumptions symbolic_derivative_is_the_real_derivative.
 Print Assumptions interval_evaluation_encloses_the_real_value.
 Print Assumptions matrix_product_entry_product_rule.
 Print Assumptions matrix_product_associates.
+Print Assumptions certified_folded_derivative.
+Print Assumptions interval_bounds_as_dyadics.
+Print Assumptions differentiated_equation_decision_is_sound.
